@@ -1,6 +1,67 @@
 // Contract harnesses for statime-algo/src/filter.rs (child module: sees private items).
-#![allow(unused_imports)]
+// Only constructors / observers used by the harnesses in lib.rs (C42 controller level, C43).
+#![allow(unused_imports, dead_code)]
 use super::*;
+
+impl<Storage: KalmanStorageBase> LinkFilter<Storage> {
+    /// A filter without links around the given estimator state.
+    pub(crate) fn verif_from_estimator(est: EstimatorState<Storage>) -> Self {
+        LinkFilter { links: LinkInfoList::new(), estimation_state: est }
+    }
+    pub(crate) fn verif_estimator(&self) -> &EstimatorState<Storage> {
+        &self.estimation_state
+    }
+    pub(crate) fn verif_n_links(&self) -> usize {
+        self.links.0.len()
+    }
+    /// Bit-for-bit equality of two filters (estimator: all fields; links: id, active flag, kind).
+    pub(crate) fn verif_same(&self, o: &Self) -> bool {
+        let mut ok = self.estimation_state.verif_same(&o.estimation_state) && self.links.0.len() == o.links.0.len();
+        if !ok {
+            return false;
+        }
+        for i in 0..self.links.0.len() {
+            let (a, b) = (&self.links.0[i], &o.links.0[i]);
+            ok &= a.id == b.id
+                && a.active == b.active
+                && a.link_state.is_tracked() == b.link_state.is_tracked()
+                && a.external_link_state.is_some() == b.external_link_state.is_some();
+        }
+        ok
+    }
+}
+
+/// Contract of `find_external_consensus_window` for a filter WITHOUT links (the steering harnesses
+/// of C43 run without links): there is no window. Used as a stub there because the real function
+/// sorts a (then empty) bounds list and CBMC explores the whole sort implementation; the contract
+/// is discharged against the real function by `c43_b_no_links_no_window`.
+pub(crate) fn no_links_no_window<Storage: KalmanStorageBase>(
+    this: &LinkFilter<Storage>,
+    _config: &LinkFilterConfig,
+) -> Option<OffsetWindow> {
+    assert!(this.links.0.len() == 0, "stub contract: only valid without links");
+    None
+}
+
+#[kani::proof]
+#[kani::unwind(6)]
+fn c43_b_no_links_no_window() {
+    type S = crate::storage::NoAllocKalmanStorage<(), 4>;
+    let est = EstimatorState::<S>::verif_any(1, 0, 0);
+    kani::assume(est.verif_wf(1, 0, 0));
+    let filter = LinkFilter::<S>::verif_from_estimator(est);
+    let config = LinkFilterConfig {
+        select_offset_uncertainty_window: kani::any(),
+        select_link_uncertainty_window: kani::any(),
+        select_delay_uncertainty_window: kani::any(),
+        select_max_window_size: kani::any(),
+        minimum_agreeing_sources: kani::any(),
+    };
+    assert!(filter.find_external_consensus_window(&config).is_none());
+    assert!(filter.leap_vote(&config).is_none());
+    assert!(filter.local_root_delay(&config).is_none());
+    kani::cover!(true, "reachable");
+}
 
 #[cfg(all(kani, test))]
 mod replay {
